@@ -63,6 +63,27 @@ fn main() {
             let cfg = RunCfg { root: root(), tier, seed };
             std::process::exit(run_check(p.as_ref(), &cfg));
         }
+        "trace" => {
+            let f = args.get(2).unwrap();
+            let k: usize = args.get(3).and_then(|x| x.parse().ok()).unwrap_or(0);
+            let v: serde_json::Value = serde_json::from_str(&std::fs::read_to_string(f).unwrap()).unwrap();
+            let ag: gtv::genr::grammar::AG = serde_json::from_value(v["case"]["ag"].clone()).unwrap();
+            let inputs: Vec<Vec<usize>> = serde_json::from_value(v["case"]["inputs"].clone()).unwrap();
+            println!("{}", gtv::genr::grammar::render_simple(&ag));
+            let b = gtv::harness::build(&ag).ok().unwrap();
+            println!("{}", gtv::harness::trace_lr(&b, &inputs[k], 60));
+        }
+        "dbg" => {
+            // in-process evaluation of a stored case (for debugging hangs with gdb)
+            let Some(f) = args.get(2) else { usage() };
+            let txt = std::fs::read_to_string(f).expect("read file");
+            let v: serde_json::Value = serde_json::from_str(&txt).expect("json");
+            let id = v.get("property").and_then(|x| x.as_str()).unwrap_or("");
+            let p = gtv::props::by_id(id).expect("property");
+            gtv::exec::install_panic_hook();
+            let o = gtv::exec::worker::evaluate_guarded(p.as_ref(), v.get("case").unwrap());
+            println!("{}", serde_json::to_string_pretty(&o).unwrap());
+        }
         "replay" => {
             let Some(f) = args.get(2) else { usage() };
             let txt = std::fs::read_to_string(f).expect("read replay file");
